@@ -233,7 +233,7 @@ func TestVerif_C12_NALU(t *testing.T) {
 		})
 		r := m.Rand("nalu", i)
 		for _, dl := range nalDataLens {
-			unit := append([]byte{hb}, r.Bytes(dl)...)
+			unit := append([]byte{hb}, r.Shaped(dl)...)
 			m.Case()
 			m.Classf("unit/%02x/size%d", hb, len(unit))
 			rep := map[string]interface{}{"header_byte": i, "unit_size": len(unit)}
@@ -300,7 +300,7 @@ func genNAL(r *vrand.Rand, size int, usualType int) []byte {
 	if r.Chance(1, 3) {
 		h.Type = r.Intn(32)
 	}
-	b := r.Bytes(size)
+	b := r.Shaped(size) // NAL payloads may contain anything, start codes and length-looking prefixes included
 	b[0] = h.Byte()
 	return b
 }
